@@ -260,6 +260,36 @@ def r1(ctx, p, b):
     # loop body
     maas = cm.local_calls(b, p, exact=MAA)
     loops = b.natural_loops()
+    if not maas and not loops:
+        # fold form: voices.zip(weights).fold(first.mul(w0), |mut acc, (p, w)| { acc.mul_add_assign(w, p); acc })
+        folds = [(bb, t) for bb, t in b.calls() if t["callee"]["k"] == "fndef" and (cm.callee_name(t["callee"]).endswith("Iterator::fold") or cm.callee_name(t["callee"]).endswith("Iterator>::fold")) and len(t["args"]) == 3]
+        okf = False
+        if len(folds) == 1 and len(muls) == 1:
+            fbb, ft = folds[0]
+            recv_ = eb.at(fbb).op(ft["args"][0])
+            init_ = eb.op(ft["args"][1])
+            clo_ = eb.op(ft["args"][2])
+            cb_ = p.bodies.get(clo_[1][len("closure:"):]) if clo_[0] == "agg" and clo_[1].startswith("closure:") else None
+            widx = roles.index("weights")
+            pidx = roles.index("voices")
+            if cb_ is not None and recv_[0] == "call" and recv_[1].endswith("Iterator::zip") and init_[0] == "call" and init_[1] == MUL and ft["dest"]["local"] == 0 or \
+                    (cb_ is not None and recv_[0] == "call" and recv_[1].endswith("Iterator::zip") and init_[0] == "call" and init_[1] == MUL and "Iterator>::fold(" in show(eb.at(None).local(0))[:80] or show(eb.at(None).local(0)).startswith("std::iter::Iterator::fold(")):
+                ceb_ = ExprBuilder(cb_)
+                cm_ = cm.local_calls(cb_, p, exact=MAA)
+                if len(cm_) == 1 and not cb_.natural_loops():
+                    cbb_, ct_ = cm_[0]
+                    r_ = ceb_.at(cbb_).op(ct_["args"][0])
+                    w_ = ceb_.op(ct_["args"][1])
+                    p_ = ceb_.op(ct_["args"][2])
+                    uncond = not [g for g in paths.guards(cb_, cbb_, ceb_) if g[0] in ("true", "false", "some", "none", "ok", "err")]
+                    ret_ = ceb_.at(None).local(0)
+                    if r_[0] == "arg" and r_[1] == 2 and show(w_) == "arg3.%d" % widx and show(p_) == "arg3.%d" % pidx and uncond and ret_[0] == "arg" and ret_[1] == 2:
+                        okf = True
+        if okf:
+            ctx.ok("C10-R1", "every remaining (param_i, weight_i) pair: acc.mul_add_assign(weight_i, param_i) in a fold started by mul(first, w0), unconditionally; the fold's value is returned", b.loc())
+        else:
+            ctx.fail("C10-R1", b.path, "accumulation", "expected one mul_add_assign call inside the single loop (or the equivalent fold)", b.loc())
+        return
     if len(maas) != 1 or len(loops) != 1 or maas[0][0] not in loops[0][1]:
         ctx.fail("C10-R1", b.path, "accumulation", "expected one mul_add_assign call inside the single loop", b.loc())
         return
